@@ -29,6 +29,8 @@ PROPS["C13"] = dict(
         "Zrnt.Proofs.C13.incremental_deposit_root_prefix",
         "Zrnt.Proofs.C13.listRoot_eq_spec",
         "Zrnt.Proofs.C13.inc_root_eq_depositListRoot",
+        "Zrnt.Proofs.C13.genesis_eq_spec_partial",
+        "Zrnt.Proofs.C13.kickstart_is_genesis_partial",
         "Zrnt.Proofs.C13.genesis_effective_balance",
         "Zrnt.Proofs.C13.genesis_activation",
         "Zrnt.Proofs.C13.topup_no_new_validator",
@@ -50,7 +52,7 @@ PROPS["C13"] = dict(
     ],
     manifest=dict(
         level_text="Lean theorems, for all deposit lists, about the transcribed initialize_beacon_state_from_eth1 (effective balances, activations, top-ups, distinct pubkeys, genesis time/root) and about the incremental deposit-root algorithm (parametric in the hash); plus a three-way differential run real GenesisFromEth1/KickStart = code-shaped Lean model = Lean spec on generated deposit lists x presets, comparing the whole genesis state, the validity predicate and the returned epochs context",
-        level_note="trusted: Lean kernel, the spec transcription in Genesis.lean, the BLS oracle (real library verdicts, signing root re-derived in Lean), SHA-256 in Lean; the refinement model=spec is established by correspondence, not by a theorem, except for the parts named in the theorems",
+        level_note="trusted: Lean kernel, the spec transcription in Genesis.lean, the BLS oracle (real library verdicts, signing root re-derived in Lean), SHA-256 in Lean; the refinement model=spec is a theorem (genesis_eq_spec_partial) in the overflow-free domain; the tie model=Go is the correspondence run",
         technique="Lean 4 proof + Go/Lean three-way differential correspondence",
         design_ref="DESIGN.md 5/C13", engine="lean"),
     assumptions=[
